@@ -220,7 +220,7 @@ pub fn worker_main(prop: &str, scen_name: &str, tier: Tier, seed: u64, from: u64
             (Ok(()), None) => ("ok", String::new(), String::new()),
             (Err(v), None) => ("vio", v.class.clone(), v.detail.clone()),
         };
-        let line = json!({"o": o, "class": class, "detail": detail, "evals": ctx.evals, "sigs": ctx.sigs, "counters": ctx.counters, "digest": ctx.digest, "notes": ctx.notes});
+        let line = json!({"o": o, "class": class, "detail": detail, "evals": ctx.evals, "sigs": ctx.sigs, "states": ctx.states, "scheds": ctx.scheds, "counters": ctx.counters, "digest": ctx.digest, "notes": ctx.notes});
         let mut out = stdout.lock();
         let _ = writeln!(out, "E {idx} {line}");
         let _ = out.flush();
@@ -313,6 +313,8 @@ fn run_isolated_batch(plan: &Plan, scen: &dyn Scenario, o: &CheckOpts, runs: u64
                                     ctx.evals = v["evals"].as_u64().unwrap_or(1);
                                     ctx.digest = v["digest"].as_u64().unwrap_or(0);
                                     ctx.sigs = v["sigs"].as_array().map(|a| a.iter().filter_map(Value::as_u64).collect()).unwrap_or_default();
+                                    ctx.states = v["states"].as_array().map(|a| a.iter().filter_map(Value::as_u64).collect()).unwrap_or_default();
+                                    ctx.scheds = v["scheds"].as_array().map(|a| a.iter().filter_map(Value::as_u64).collect()).unwrap_or_default();
                                     if let Some(c) = v["counters"].as_object() {
                                         for (k, n) in c {
                                             ctx.counters.insert(k.clone(), n.as_u64().unwrap_or(0));
@@ -380,6 +382,8 @@ struct Merged {
     runs: u64,
     counters: BTreeMap<String, u64>,
     sigs: HashSet<u64>,
+    states: HashSet<u64>,
+    scheds: HashSet<u64>,
     samples: Vec<Value>,
     digest: u64,
     notes: Vec<String>,
@@ -528,6 +532,12 @@ pub fn run_check(plan: Plan, o: &CheckOpts) -> i32 {
             for s in &r.ctx.sigs {
                 merged.sigs.insert(*s ^ hash_str(scen.name()));
             }
+            for s in &r.ctx.states {
+                merged.states.insert(*s);
+            }
+            for s in &r.ctx.scheds {
+                merged.scheds.insert(*s);
+            }
             merged.digest = mix(merged.digest, r.ctx.digest ^ r.idx);
             for n in &r.ctx.notes {
                 if merged.notes.len() < 20 && !merged.notes.contains(n) {
@@ -591,6 +601,10 @@ pub fn run_check(plan: Plan, o: &CheckOpts) -> i32 {
                 "rule": rules.join(" || "),
                 "samples": merged.samples,
                 "exhaustive": all_enumerated && !truncated,
+                "states": merged.states.len(),
+                "states_measure": "distinct reference-model states (set of (id, content) pairs) reached after a mutating operation; 0 for scenarios without a stateful model",
+                "distinct_schedule_policies": merged.scheds.len(),
+                "distinct_schedule_policies_measure": "distinct (read transfer rule, write transfer rule, Pending rate/burst/wake/ctl) combinations under which streams were driven; each is further varied by its own seed per run",
                 "simulated_runs": merged.runs,
                 "runs_per_hour": if wall > 0.0 { (merged.runs as f64 / wall * 3600.0).round() } else { 0.0 },
                 "simulated_time": "not applicable: the system has no clock or timer; progress is measured in simulated stream operations and bytes",
